@@ -840,8 +840,10 @@ def run(ctx):
                     continue
                 rows.append((f, label, sc, cls, fl[0]["line"] if fl else lit["line"]))
             ref = sorted({c[0] for _, _, sc, c, _ in rows if c[0].startswith("filtered:")})
+            # the reference validation is the one the builder API applies; without a filtering builder all filtering sites must agree
+            ref_b = sorted({c[0] for _, _, sc, c, _ in rows if c[0].startswith("filtered:") and sc == "builder"})
             for f, label, sc, cls, line in rows:
-                agrees = (not ref) or cls[0] in ("none", "copy") or cls[0] in ref
+                agrees = (not ref) or cls[0] in ("none", "copy") or (cls[0] in ref and (len(ref) == 1 or (sc == "builder" and len(ref_b) == 1) or (sc == "deser" and cls[0] in ref_b)))
                 ctx.instance("SIBLING-FILTER", {"struct": nm, "field": fld, "site": label, "scope": sc, "value": cls[0], "builder_filters": ref, "agrees": agrees})
                 if sc == "deser" and not agrees:
                     nth[(label, nm, fld)] = nth.get((label, nm, fld), 0) + 1
